@@ -1,3 +1,4 @@
 SPECIFICATION Spec
 PROPERTY Unchanged
+PROPERTY Registered
 CHECK_DEADLOCK FALSE
